@@ -19,12 +19,13 @@ var frame = 100 * time.Millisecond
 var base *baseCockpit
 
 type baseCockpit struct {
-	w       io.Writer
-	tasks   []*task.Task
-	mu      sync.Mutex
-	spinner *spinner.Spinner
-	charSet int
-	closeCh chan bool
+	w         io.Writer
+	tasks     []*task.Task
+	mu        sync.Mutex
+	spinnerMu sync.Mutex
+	spinner   *spinner.Spinner
+	charSet   int
+	closeCh   chan bool
 }
 
 type cockpitOutputDecorator struct {
@@ -71,10 +72,10 @@ func (b *baseCockpit) add(t *task.Task) {
 
 func (b *baseCockpit) remove(t *task.Task) {
 	b.mu.Lock()
-	defer b.mu.Unlock()
 
 	// a task that was skipped or failed before its commands never started its output
 	if b.spinner == nil {
+		b.mu.Unlock()
 		return
 	}
 
@@ -83,6 +84,13 @@ func (b *baseCockpit) remove(t *task.Task) {
 			b.tasks = append(b.tasks[:k], b.tasks[k+1:]...)
 		}
 	}
+
+	// the spinner calls PreUpdate, which takes b.mu, while holding its own lock:
+	// b.mu must be released before the spinner is touched
+	b.mu.Unlock()
+
+	b.spinnerMu.Lock()
+	defer b.spinnerMu.Unlock()
 
 	var mark = aurora.Green("✔")
 	if t.Errored {
